@@ -338,6 +338,9 @@ Proof.
     + apply IH. exact Hk.
 Qed.
 
+Lemma Forall2_len {A B} (R : A -> B -> Prop) la lb : Forall2 R la lb -> length la = length lb.
+Proof. induction 1; cbn [length]; congruence. Qed.
+
 Lemma it_up_n_S k : forall it, it_up_n (S k) it = it_parent (it_sibling (it_up_n k it)).
 Proof. induction k as [|k IH]; intros it; [reflexivity|]. cbn [it_up_n] in *. now rewrite <- IH. Qed.
 
@@ -480,14 +483,13 @@ Proof.
   destruct Hl as (-> & sibs & -> & HF). cbn [rev app] in *.
   cbn [lp_nodes lp_seek lp_upgrade lp_additional lp_empty bind] in H. injection H as <-.
   exists sibs. split; [reflexivity|].
-  pose proof (Forall2_length HF) as HL. rewrite sib_indices_length in HL.
+  pose proof (Forall2_len _ _ _ HF) as HL. rewrite sib_indices_length in HL.
   split; [now symmetry|]. split; [exact HF|].
   split.
   { intros k n Hk. destruct (Forall2_nth _ _ _ _ _ HF Hk) as (idx & Hi & Hr).
     rewrite sib_indices_nth in Hi.
     - injection Hi as <-. exact Hr.
-    - apply nth_error_Some. rewrite sib_indices_length. rewrite HL.
-      apply nth_error_Some. rewrite Hk. discriminate. }
+    - rewrite HL. apply nth_error_Some. rewrite Hk. discriminate. }
   split; [now rewrite Hsub0, Es|].
   split; [intros j Hj; rewrite <- Eup; apply Hc, Hj|].
   split; [reflexivity|]. apply orb_false_iff in E0. lia.
